@@ -40,7 +40,7 @@ pub fn defs() -> Vec<PropDef> {
             }
             Ok(())
         },
-        rule: "(a) fd monitor over a sweep of decode/encode/hide/reveal/Display calls; (b1) HIST: every call history over a 12-call alphabet up to depth 3 (quick) / 4 (thorough) walked on the main thread and on a reused worker thread, each result compared with the same call made first in a pristine process, histories up to depth 2 (3) additionally each in its own fresh process; (b2) the message/AVP-list wire sweep as one long history, plain and disturbed; (c) SCHED: loom, all unordered pairs of the call alphabet on two threads (thorough: also selected triples on three), scheduling point at every Reader/Writer trait call, preemption bound 2 (quick) / 3 (thorough); (d) 16 free-running OS threads. states = choice-tree nodes + history prefixes + loom schedules; distinct non-trivial = distinct call histories with at least two calls + distinct schedules explored by loom (loom does not repeat a schedule) + distinct wire cases of the long history.",
+        rule: "(a) fd monitor over a sweep of decode/encode/hide/reveal/Display calls; (b1) HIST: every call history over a 12-call alphabet up to depth 3 (quick) / 4 (thorough) walked on the main thread and on a reused worker thread, each result compared with the same call made first in a pristine process, histories up to depth 2 (3) additionally each in its own fresh process; (b2) the message/AVP-list wire sweep as one long history, plain and disturbed; (c) SCHED: loom, all unordered pairs of the call alphabet on two threads (thorough: also selected triples on three), scheduling point at every Reader/Writer trait call, preemption bound 2 (quick) / 3 (thorough); (c2) the same pairs against a copy of the tree in which std::sync primitives are replaced by instrumented ones, adding a scheduling point at every lock / unlock / atomic operation of the library (best effort: skipped when that copy does not build); (d) 16 free-running OS threads. states = choice-tree nodes + history prefixes + loom schedules; distinct non-trivial = distinct call histories with at least two calls + distinct schedules explored by loom (loom does not repeat a schedule) + distinct wire cases of the long history.",
         bounds: |t| json!({"call_alphabet": 12, "history_depth": if t.thorough() {4} else {3}, "fresh_process_depth": if t.thorough() {3} else {2}, "loom": {"threads": if t.thorough() {"2 and 3"} else {"2"}, "preemption_bound": if t.thorough() {3} else {2}, "scheduling_points": "every Reader/Writer trait call made by the library (hide/reveal have none)"}, "free_running_threads": 16}),
         assumptions: &[
             "loom only sees thread switches at the seams (Reader/Writer calls); shared state read-modified-written entirely between two seams, or inside hide/reveal which use no caller-supplied reader or writer, is invisible to (c) and is covered only by (b) and (d)",
@@ -299,6 +299,61 @@ pub fn call<K: Tick>(i: usize, tick: &K) -> String {
         Ok(s) => s,
         Err(p) => format!("PANIC at {}: {}", p.0, p.1),
     }
+}
+
+/// inputs of the instrumented-sync driver (vh_sync): the six decode inputs and a Vendor Name record
+pub fn sync_inputs_json() -> String {
+    let mut v: Vec<String> = inputs().iter().map(|b| hex(b)).collect();
+    v.push(hex(&gen::avp_record(0x01, 0, 8, "näme".as_bytes())));
+    serde_json::to_string(&v).unwrap()
+}
+
+/// Run the instrumented-sync loom driver, if it was built for the current tree.
+fn instrumented_sync(ctx: &mut Ctx, bound: usize) {
+    let bin = "/verif/harness/target/vh_sync/release/vh_sync";
+    if !std::path::Path::new(bin).exists() {
+        ctx.extra.insert("instrumented_sync_mode".into(), json!("unavailable: the std::sync -> vsync copy of the tree did not build"));
+        return;
+    }
+    let inputs = format!("/verif/scratch/c19-sync-inputs-{}.json", std::process::id());
+    if std::fs::write(&inputs, sync_inputs_json()).is_err() {
+        return;
+    }
+    let out = std::process::Command::new(bin).arg(&inputs).arg(bound.to_string()).stdin(std::process::Stdio::null()).output();
+    let _ = std::fs::remove_file(&inputs);
+    let Ok(out) = out else {
+        ctx.extra.insert("instrumented_sync_mode".into(), json!("unavailable: could not run vh_sync"));
+        return;
+    };
+    let text = String::from_utf8_lossy(&out.stdout);
+    let Some(v) = text.lines().rev().find_map(|l| serde_json::from_str::<Value>(l).ok()) else {
+        ctx.extra.insert("instrumented_sync_mode".into(), json!(format!("inconclusive: vh_sync produced no report (exit {:?})", out.status.code())));
+        return;
+    };
+    let n = v["schedules"].as_u64().unwrap_or(0);
+    ctx.states += n;
+    ctx.transitions += n;
+    ctx.executions += n;
+    ctx.nontrivial_direct += n;
+    ctx.extra.insert("instrumented_sync_mode".into(), json!({"schedules": n, "preemption_bound": format!("{bound}"), "baseline_stable": v["baseline_stable"], "per_pair": v["per_pair"]}));
+    if v["baseline_stable"].as_bool() == Some(false) {
+        // results differ between two sequential runs inside the instrumented copy: a history
+        // dependence, which (b1)/(b2) decide on the real build; nothing is concluded here
+        return;
+    }
+    if let Some(ms) = v["mismatches"].as_array() {
+        for m in ms {
+            let names = m["names"].as_array().map(|a| a.iter().filter_map(|x| x.as_str()).collect::<Vec<_>>().join("||")).unwrap_or_default();
+            let pair = m["pair"].clone();
+            ctx.violation(
+                format!("C19 schedule-instrumented-sync {names}"),
+                format!("threads {names}, preemption bound {bound}, scheduling points at Reader/Writer calls and at every std::sync operation of the library: {}", m["detail"].as_str().unwrap_or("")),
+                2,
+                || json!({"kind":"schedule-sync","pair":pair,"bound":bound}),
+            );
+        }
+    }
+    ctx.guard("instrumented-sync");
 }
 
 /// `vh c19call i,j,k` — run a history in this (fresh) process and print one digest per line.
@@ -684,6 +739,10 @@ fn run_c19(ctx: &mut Ctx) {
     }
     ctx.extra.insert("loom_schedules_per_group".into(), Value::Object(per_pair));
     ctx.tally("loom");
+    // (c2) instrumented-sync mode
+    if ctx.shard == 1 % ctx.nshards {
+        instrumented_sync(ctx, bound);
+    }
     // (d) free-running complement
     if ctx.shard == 0 {
         let (n, bad) = free_running(&base, 1500);
@@ -777,6 +836,25 @@ fn replay_c19(ctx: &mut Ctx, v: &Value) {
             if plain != after {
                 ctx.violation("C19 long-history replay".into(), format!("result changes after call {}", CALL_NAMES[d]), bytes.len(), || v.clone());
             }
+        }
+        Some("schedule-sync") => {
+            let bin = "/verif/harness/target/vh_sync/release/vh_sync";
+            let inputs = format!("/verif/scratch/c19-sync-inputs-{}.json", std::process::id());
+            let _ = std::fs::write(&inputs, sync_inputs_json());
+            let p: Vec<String> = v["pair"].as_array().map(|a| a.iter().map(|x| x.as_u64().unwrap_or(0).to_string()).collect()).unwrap_or_default();
+            let b = v["bound"].as_u64().unwrap_or(2).to_string();
+            if p.len() == 2 {
+                if let Ok(out) = std::process::Command::new(bin).args([&inputs, &b, &"pair".to_string(), &p[0], &p[1]]).output() {
+                    let text = String::from_utf8_lossy(&out.stdout).to_string();
+                    if let Some(r) = text.lines().rev().find_map(|l| serde_json::from_str::<Value>(l).ok()) {
+                        println!("  instrumented-sync exploration: {} schedules", r["schedules"]);
+                        if let Some(m) = r["mismatches"].as_array().and_then(|a| a.first()) {
+                            ctx.violation("C19 schedule-instrumented-sync replay".into(), m["detail"].as_str().unwrap_or("").to_string(), 2, || v.clone());
+                        }
+                    }
+                }
+            }
+            let _ = std::fs::remove_file(&inputs);
         }
         Some("free-running") => {
             // timing-dependent: try for up to 20 s
